@@ -3,14 +3,14 @@
 //
 // usage: instrument -spec spec.json
 //
-// spec: {"repo": "/repo", "out": "/scratch/dir", "jobs": [ {
-//     "dir": "/repo/gsfa", "pkg": "github.com/rpcpool/yellowstone-faithful/gsfa",
-//     "files": ["gsfa-write.go"], "sync": true, "maprange": false,
-//     "rules": ["const:itemsPerBatch=2", "var:howManyBuffersToFlushConcurrently=2",
-//               "makecap:fullBufferWriterChan=1", "lit:Push:500=2"],
-//     "imports": {"golang.org/x/sync/errgroup": "github.com/.../zzverif/verrgroup"},
-//     "as": "/repo/zzverif/verrgroup/errgroup.go"   (optional: overlay target path, single file)
-// } ] }
+//	spec: {"repo": "/repo", "out": "/scratch/dir", "jobs": [ {
+//	    "dir": "/repo/gsfa", "pkg": "github.com/rpcpool/yellowstone-faithful/gsfa",
+//	    "files": ["gsfa-write.go"], "sync": true, "maprange": false,
+//	    "rules": ["const:itemsPerBatch=2", "var:howManyBuffersToFlushConcurrently=2",
+//	              "makecap:fullBufferWriterChan=1", "lit:Push:500=2"],
+//	    "imports": {"golang.org/x/sync/errgroup": "github.com/.../zzverif/verrgroup"},
+//	    "as": "/repo/zzverif/verrgroup/errgroup.go"   (optional: overlay target path, single file)
+//	} ] }
 //
 // output (stdout): {"overlay": {"<target path>": "<written file>"}, "unmatched_rules": [...], "rewrites": {...}}
 // exit 2: cannot instrument (unsupported construct); never used to signal a property violation.
